@@ -24,6 +24,15 @@ func returnsErr(b *ssa.BasicBlock, errv ssa.Value) bool {
 		return false
 	}
 	last := ret.Results[len(ret.Results)-1]
+	if resultStruct(ret.Parent().Signature) != nil {
+		// the function hands its results back in one struct: the error is the struct's error field
+		lr := logicalResults(ret)
+		ei := logicalResultIdx(ret.Parent().Signature, isErrorType)
+		if lr == nil || ei < 0 {
+			return false
+		}
+		last = lr[ei]
+	}
 	if last == errv {
 		return true
 	}
